@@ -4,8 +4,8 @@
 //	              components, output path lists of <= 2 (ordered) or 3
 //	              (multisets) paths of <= 2 components over {a, b, ., ..}),
 //	              each against trees / input roots taken round-robin from a
-//	              catalogue (the seed shifts the pairing); VERIF_STRIDE=k
-//	              keeps all lists of <= 1 path and every k-th longer one
+//	              catalogue (the seed shifts the pairing); VERIF_STRIDE=k /
+//	              VERIF_STRIDE3=k keep every k-th list of 2 / 3 paths
 //	TestTrees     every produced tree of depth <= 2 (3 for one shape) over
 //	              two names against a few fixed commands
 //	TestRandom    seeded random deeper cases (three names, depth <= 4,
@@ -150,7 +150,8 @@ func (c *caseT) setExec(on bool) {
 
 func TestCommands(t *testing.T) {
 	maxPaths := common.EnvInt("VERIF_MAXPATHS", 2)
-	stride := common.EnvInt("VERIF_STRIDE", 1) // >1: only every stride-th command with 2 or more paths
+	stride := common.EnvInt("VERIF_STRIDE", 1)   // >1: only every stride-th command with 2 paths
+	stride3 := common.EnvInt("VERIF_STRIDE3", 1) // >1: only every stride3-th command with 3 paths
 	seed := int(common.Seed())
 	s := newSink()
 	wds := seqsUpTo(2)
@@ -183,7 +184,10 @@ func TestCommands(t *testing.T) {
 	for _, wd := range wds {
 		for _, l := range lists {
 			n++
-			if stride > 1 && len(l) >= 2 && (n+seed)%stride != 0 {
+			if len(l) == 2 && stride > 1 && (n+seed)%stride != 0 {
+				continue
+			}
+			if len(l) == 3 && stride3 > 1 && (n+seed)%stride3 != 0 {
 				continue
 			}
 			c := &caseT{gen: "commands", wd: wd, paths: l}
@@ -192,7 +196,8 @@ func TestCommands(t *testing.T) {
 		}
 	}
 	s.close(map[string]any{"working_directories": len(wds), "path_lists": len(lists), "ordered_lists_up_to_2": ordered,
-		"exhaustive": stride <= 1, "max_paths": maxPaths, "stride_for_lists_of_2_or_more": stride})
+		"exhaustive": stride <= 1 && (maxPaths < 3 || stride3 <= 1), "max_paths": maxPaths,
+		"stride_for_lists_of_2": stride, "stride_for_lists_of_3": stride3})
 }
 
 // ---------------------------------------------------------------------
@@ -238,7 +243,7 @@ func treeFamily(wide bool) []*node {
 
 func TestTrees(t *testing.T) {
 	wide := common.EnvInt("VERIF_WIDE", 0) != 0
-	allCommands := common.EnvInt("VERIF_ALLCMDS", 0) != 0
+	perTree := common.EnvInt("VERIF_CMDS_PER_TREE", 1)
 	seed := int(common.Seed())
 	s := newSink()
 	type cmdT struct {
@@ -257,7 +262,9 @@ func TestTrees(t *testing.T) {
 	n := 0
 	for i, tree := range family {
 		for k, cm := range cmds {
-			if !allCommands && (i+seed)%len(cmds) != k {
+			// Each tree meets perTree of the commands; which ones rotates
+			// with the tree and the seed.
+			if m := len(cmds); ((k-i-seed)%m+m)%m >= perTree {
 				continue
 			}
 			c := &caseT{gen: "trees", wd: cm.wd, paths: cm.paths, prod: tree}
@@ -273,7 +280,7 @@ func TestTrees(t *testing.T) {
 			n++
 		}
 	}
-	s.close(map[string]any{"trees": len(family), "commands": len(cmds), "all_commands_per_tree": allCommands, "exhaustive": true})
+	s.close(map[string]any{"trees": len(family), "commands": len(cmds), "commands_per_tree": perTree, "exhaustive": true})
 }
 
 // ---------------------------------------------------------------------
